@@ -238,6 +238,12 @@ def run(ctx):
             hist.append(["forward", "none"])
             hist.append(["forward", "forward"])          # the same description twice: nothing of the first run is remembered
             hist.append(["none", "forward", "forward"])
+        for nn in ("vectors", "arrayclass"):
+            if nn in descs and nn not in refs:
+                refs[nn] = fresh_run(ctx, "ref_" + nn, *job_for(descs, nn))[0]
+        if "vectors" in refs:
+            hist.append(["tutorial", "vectors"])          # per-library helper text (prefixes) built again for every library
+            hist.append(["gen-many", "vectors", "arrayclass"] if "arrayclass" in refs else ["gen-many", "vectors"])
         hist.append(["gen-tm-override", "gen-tm-user"])
         hist.append(["gen-tm-user", "gen-tm-override", "gen-tm-user"])
         hist.append(["tutorial", "clibrary"])
@@ -254,7 +260,7 @@ def run(ctx):
         for _ in range(40):
             hist.append(rng.sample(sorted(refs), 3))
         # the directed histories of the quick tier (recorded findings are reproduced in both tiers)
-        for h in (["forward", "none"], ["forward", "forward"], ["none", "forward", "forward"], ["gen-tm-override", "gen-tm-user"],
+        for h in (["tutorial", "vectors"], ["gen-many", "vectors", "arrayclass"], ["forward", "none"], ["forward", "forward"], ["none", "forward", "forward"], ["gen-tm-override", "gen-tm-user"],
                   ["gen-tm-user", "gen-tm-override", "gen-tm-user"], ["tutorial", "clibrary"], ["pointers-cxx", "pointers-c", "pointers-cxx"],
                   ["struct-c", "struct-cxx"], ["struct-cxx", "struct-c"], ["classes", "clibrary", "strings"]):
             if all(n in refs for n in h):
